@@ -78,7 +78,8 @@ def fastqIter : Nat → List FqRec → List Item
 /-! ### `detect_file_format` from bytes -/
 
 def bCRAM : List Nat := [67, 82, 65, 77]
-def bVCF : List Nat := "##fileformat=VCF".toList.map Char.toNat
+/-- `##fileformat=VCF` -/
+def bVCF : List Nat := [35, 35, 102, 105, 108, 101, 102, 111, 114, 109, 97, 116, 61, 86, 67, 70]
 def bGZ : List Nat := [31, 139]
 def bBAM : List Nat := [66, 65, 77, 1]
 
